@@ -8,7 +8,8 @@
    not parse); [codec_hypotheses_satisfiable] shows they can be met. *)
 From Coq Require Import List NArith Arith Bool Lia.
 From AHK Require Import Lib.Res Lib.ByteStr Model.Persist Proofs.Persist Proofs.PersistEx
-  Model.PersistRec Proofs.PersistRec Model.PersistJson Proofs.PersistJson Proofs.PersistJsonFs.
+  Model.PersistRec Proofs.PersistRec Model.PersistJson Proofs.PersistJson Proofs.PersistJsonFs
+  Model.PersistText Proofs.PersistText.
 Import ListNotations.
 
 (* write-temp-then-rename (temp file in the same directory, fsync, close, os.replace):
@@ -286,6 +287,61 @@ Proof.
         (conj (proj1 (proj2 (proj2 ex_doc_prints))) (proj2 (proj2 (proj2 (proj2 ex_doc_prints))))))).
 Qed.
 
+(* ---- the text layer (Model/PersistText.v): code points <-> bytes of the file, per host locale ---- *)
+
+(* strict UTF-8: decoding the encoding of any sequence of Unicode scalar values gives it back *)
+Theorem utf8_roundtrip :
+  forall s, Forall scalar s -> utf8_dec (utf8_enc s) = Some s.
+Proof. exact utf8_roundtrip_l. Qed.
+
+(* the code in /repo names encoding="utf-8" when writing AND when reading: for every text (unicode aliases
+   included), every host that saved and every host that restarts, the text is read back unchanged *)
+Theorem text_restart_any_host :
+  forall (hw hr : codec) s, Forall scalar s ->
+    text_restart (Some Utf8) (Some Utf8) hw hr s = Some s.
+Proof. exact text_restart_explicit_l. Qed.
+
+(* ASCII-only text survives whatever the arguments and hosts are - the reason a lost encoding argument is
+   invisible to ASCII aliases *)
+Theorem text_restart_ascii_any :
+  forall (ew er : option codec) (hw hr : codec) s, Forall (fun c => (c < 128)%N) s ->
+    text_restart ew er hw hr s = Some s.
+Proof. exact text_restart_ascii_l. Qed.
+
+(* a reader WITHOUT the encoding argument (seeded change C20-O) refutes the property on every text with a
+   non-ASCII code point: under the POSIX C locale the load fails ... *)
+Theorem text_default_reader_ascii_refuted :
+  forall (hw : codec) s, Forall scalar s -> Exists (fun c => (128 <= c)%N) s ->
+    text_restart (Some Utf8) None hw Ascii s = None.
+Proof. exact text_default_reader_ascii_l. Qed.
+
+(* ... and under an 8-bit code page that maps every byte, whatever is loaded is NOT the text saved *)
+Theorem text_default_reader_latin1_refuted :
+  forall (hw : codec) s, Forall scalar s -> Exists (fun c => (128 <= c)%N) s ->
+    forall s', text_restart (Some Utf8) None hw Latin1 s = Some s' -> s' <> s.
+Proof. exact text_default_reader_latin1_l. Qed.
+
+(* a writer WITHOUT the argument cannot save a non-ASCII text under the C locale at all *)
+Theorem text_default_writer_ascii_refuted :
+  forall (er : option codec) (hr : codec) s, Exists (fun c => (128 <= c)%N) s ->
+    text_restart None er Ascii hr s = None.
+Proof. exact text_default_writer_ascii_l. Qed.
+
+(* non-vacuity: "Küche 客厅 🏠 ..." (1-, 2-, 3-, 4-byte sequences, the boundary scalars U+D7FF, U+E000, U+10FFFF)
+   through all nine host pairs; the two refutations on it; truncated / overlong / surrogate / too-large
+   byte sequences are rejected *)
+Example c20_text_nonvacuous :
+  Forall scalar kueche /\ Exists (fun c => (128 <= c)%N) kueche /\
+  utf8_enc [252; 23458; 127968]%N = [195; 188; 229; 174; 162; 240; 159; 143; 160]%N /\
+  (forall hw hr, In hw [Utf8; Ascii; Latin1] -> In hr [Utf8; Ascii; Latin1] ->
+     text_restart (Some Utf8) (Some Utf8) hw hr kueche = Some kueche) /\
+  text_restart (Some Utf8) None Utf8 Ascii kueche = None /\
+  text_restart (Some Utf8) None Utf8 Latin1 [75; 252]%N = Some [75; 195; 188]%N /\
+  text_restart None (Some Utf8) Latin1 Utf8 [75; 252]%N = None /\
+  utf8_dec [195]%N = None /\ utf8_dec [192; 175]%N = None /\ utf8_dec [237; 160; 128]%N = None /\
+  utf8_dec [244; 144; 128; 128]%N = None.
+Proof. exact text_nonvacuous_l. Qed.
+
 Print Assumptions save_crash_safe.
 Print Assumptions save_crash_safe_plain.
 Print Assumptions save_crash_safe_fresh.
@@ -311,3 +367,9 @@ Print Assumptions save_crash_safe_json.
 Print Assumptions save_inplace_loses_data_json.
 Print Assumptions cache_prefix_safe_json.
 Print Assumptions cache_save_crash_total_json.
+Print Assumptions utf8_roundtrip.
+Print Assumptions text_restart_any_host.
+Print Assumptions text_restart_ascii_any.
+Print Assumptions text_default_reader_ascii_refuted.
+Print Assumptions text_default_reader_latin1_refuted.
+Print Assumptions text_default_writer_ascii_refuted.
